@@ -70,8 +70,46 @@ func runC38(c *Ctx) {
 		id, ok := call.Fun.(*ast.Ident)
 		return ok && rc.paramIndex(rc.Info.ObjectOf(id)) == 2
 	})
-	c.Floor("receive checker sites", len(checker), 1)
+	// the bound is either a predicate parameter applied to the announced size, or a numeric
+	// limit parameter the size is compared with
+	limitForm := false
+	if len(checker) == 0 {
+		i := 0
+		for _, fld := range rc.Type.Params.List {
+			for range fld.Names {
+				if i == 2 {
+					if b, ok := rc.Info.TypeOf(fld.Type).Underlying().(*types.Basic); ok && b.Info()&types.IsInteger != 0 {
+						limitForm = true
+					}
+				}
+				i++
+			}
+		}
+	}
+	if !limitForm {
+		c.Floor("receive checker sites", len(checker), 1)
+	}
+	sizeWithinLimit := func(g *Fn, fs *FactSet) bool {
+		return fs.Cmp(func(e, tag ast.Expr, truth bool, fa *Fact) bool {
+			be, ok := ast.Unparen(e).(*ast.BinaryExpr)
+			if !ok || tag != nil {
+				return false
+			}
+			isSize := func(x ast.Expr) bool { return strings.Contains(g.Prov(x), "BigEndian.Uint32()") }
+			isLimit := func(x ast.Expr) bool { return g.Prov(x) == "param#2" }
+			switch {
+			case isSize(be.X) && isLimit(be.Y):
+				return be.Op == token.GTR && !truth || be.Op == token.LEQ && truth
+			case isLimit(be.X) && isSize(be.Y):
+				return be.Op == token.LSS && !truth || be.Op == token.GEQ && truth
+			}
+			return false
+		})
+	}
 	passed := factReq{"checker(size) == true", func(g *Fn, fs *FactSet) bool {
+		if limitForm {
+			return sizeWithinLimit(g, fs)
+		}
 		return fs.Has(func(fa *Fact) bool { return fa.Kind == FTrue && len(checker) > 0 && fa.Call == checker[0] })
 	}}
 	sinks := rc.Calls(false, func(call *ast.CallExpr) bool {
@@ -92,7 +130,18 @@ func runC38(c *Ctx) {
 	c.Floor("receive ReadFull sites", len(rf), 2)
 	if len(rf) >= 2 {
 		requireAt(c, "framing", "receive#payload-read-after-size-check", rc, rf[1], "the payload is read only after the size check", passed)
-		c.Ob("framing", "receive#reads-exactly-size-bytes", rf[1].Pos(), strings.Contains(rc.Prov(rf[1].Args[1]), "Get()") && len(checker) > 0 && strings.HasSuffix(rc.Prov(checker[0].Args[0]), "BigEndian.Uint32()"), "the payload buffer has the announced size (pool.Get(int(size))) and ReadFull fills it")
+		c.Ob("framing", "receive#reads-exactly-size-bytes", rf[1].Pos(), strings.Contains(rc.Prov(rf[1].Args[1]), "Get()") && (limitForm || len(checker) > 0 && strings.HasSuffix(rc.Prov(checker[0].Args[0]), "BigEndian.Uint32()")) && func() bool {
+			// the buffer is taken with the announced size
+			for _, gc := range rc.Calls(false, func(call *ast.CallExpr) bool {
+				k := rc.CallKey(call)
+				return strings.HasSuffix(k, "pool.Get") || strings.HasSuffix(k, ".Get") && strings.Contains(k, "buffer-pool")
+			}) {
+				if len(gc.Args) == 1 && strings.Contains(rc.Prov(gc.Args[0]), "BigEndian.Uint32()") {
+					return true
+				}
+			}
+			return false
+		}(), "the payload buffer has the announced size (pool.Get(int(size))) and ReadFull fills it")
 	}
 	for _, call := range sinks {
 		if se, ok := call.Fun.(*ast.SelectorExpr); ok && se.Sel.Name == "UnmarshalVT" {
@@ -149,7 +198,15 @@ func runC38(c *Ctx) {
 			c.Ob("bound", fmt.Sprintf("BoundedReceive#ordertype(size,max)=%v", ord), lit.Pos(), got == want, fmt.Sprintf("size=%v max=%v: accepted=%v, must be %v (accept exactly size <= max)", size, mx, got, want))
 		}
 	}
-	c.Floor("BoundedReceive checker literals", len(br.Lits()), 1)
+	if limitForm {
+		// the caller's bound is handed to receive as the limit
+		for _, call := range br.CallsTo(false, "spec/rpc.receive") {
+			c.Ob("bound", "BoundedReceive#bound-is-the-limit", call.Pos(), len(call.Args) == 3 && br.Prov(call.Args[2]) == "param#2", "BoundedReceive passes its max as the limit receive compares the announced size with (accept exactly size <= max)")
+		}
+		c.Floor("BoundedReceive delegation", len(br.CallsTo(false, "spec/rpc.receive")), 1)
+	} else {
+		c.Floor("BoundedReceive checker literals", len(br.Lits()), 1)
+	}
 	for _, call := range br.CallsTo(false, "spec/rpc.receive") {
 		c.Ob("bound", "BoundedReceive#delegates", call.Pos(), br.Prov(call.Args[0]) == "param#0" && br.Prov(call.Args[1]) == "param#1", "BoundedReceive passes its stream and message to receive")
 	}
